@@ -482,6 +482,18 @@ func ruleGOB(c *Ctx) {
 	} else {
 		c.fail("GOB.3/fix/Undefined", fx, "fixDecodedObject has no arm for *Undefined")
 	}
+	if cc := arms["Error"]; cc != nil {
+		fixes := containsNode(cc, func(n ast.Node) bool {
+			call, ok := n.(*ast.CallExpr)
+			return ok && Callee(p, call) != nil && Callee(p, call).Name() == "fixDecodedObject" && len(call.Args) >= 1 && strings.HasSuffix(w.Src(call.Args[0]), ".Value")
+		}) && containsNode(cc, func(n ast.Node) bool {
+			as, ok := n.(*ast.AssignStmt)
+			return ok && len(as.Lhs) == 1 && strings.HasSuffix(w.Src(as.Lhs[0]), ".Value")
+		})
+		c.check(fixes, "GOB.3/fix/Error", cc, "the value inside an error is fixed and stored back", "fixDecodedObject does not fix the value held by an Error")
+	} else {
+		c.fail("GOB.3/fix/Error", fx, "fixDecodedObject does not descend into Error values: a boolean or undefined inside an error constant is not mapped back to its singleton after decoding")
+	}
 	for _, t := range []string{"Array", "ImmutableArray", "Map", "ImmutableMap"} {
 		cc := arms[t]
 		if cc == nil {
@@ -826,7 +838,12 @@ func ruleCLONE1(c *Ctx) {
 	var cow *ast.IfStmt
 	var writePos token.Pos
 	for _, s := range rb.Body.List {
-		if is, ok := s.(*ast.IfStmt); ok && strings.Contains(w.Src(is.Cond), "!") && strings.Contains(w.Src(is.Cond), "fullClone") {
+		if is, ok := s.(*ast.IfStmt); ok && func() bool {
+			// `if !c.fullClone` however it is spelled (`c.fullClone == false`)
+			bare, neg := stripNot(is.Cond)
+			f, _ := FieldSel(p, bare)
+			return neg && f != nil && f.Name() == "fullClone"
+		}() {
 			cow = is
 		}
 	}
